@@ -34,7 +34,9 @@ def record(b, o, radii_nm, cart, rng):
     try:
         with quiet():
             fg = FullGrid(b, o, str(list(radii_nm)), position_grid_cartesian=cart)
-            arr = np.asarray(fg.get_full_grid_as_array())
+            fg.get_full_grid_as_array()
+            fg.get_position_grid().get_position_grid_as_array()
+            arr = np.asarray(fg.get_full_grid_as_array())          # asked repeatedly: the last answer is the one that is checked
             ogrid = np.asarray(fg.get_position_grid().get_o_grid().get_grid_as_array())
             bgrid = np.asarray(fg.b_rotations.get_grid_as_array(only_upper=True))
         rec["nO"], rec["nB"] = len(ogrid), len(bgrid)
